@@ -585,9 +585,9 @@ pub fn property() -> Property {
                different constraining kinds; distinct by encoding / history / values.",
         assumptions: &["explicit 32-byte nonces are not sent through PSET conversions (the format has no field for them)"],
         subs: vec![
-            Sub { name: "tx_roundtrip", kind: Kind::Tape { max_len: 3000, quick: 20_000, thorough: 600_000, f: tx_roundtrip } },
-            Sub { name: "extraction", kind: Kind::Tape { max_len: 6000, quick: 8_000, thorough: 240_000, f: extraction } },
-            Sub { name: "unique_id", kind: Kind::Tape { max_len: 7000, quick: 5_000, thorough: 150_000, f: unique_id_histories } },
+            Sub { name: "tx_roundtrip", kind: Kind::Tape { max_len: 3000, quick: 240_000, thorough: 3_000_000, f: tx_roundtrip } },
+            Sub { name: "extraction", kind: Kind::Tape { max_len: 6000, quick: 96_000, thorough: 1_200_000, f: extraction } },
+            Sub { name: "unique_id", kind: Kind::Tape { max_len: 7000, quick: 60_000, thorough: 750_000, f: unique_id_histories } },
             Sub { name: "locktime", kind: Kind::Index { count: |t| t.pick(341, 341 * 30), exhaustive: true, f: locktime_assignments } },
         ],
         known: vec![
